@@ -123,9 +123,18 @@ def layout(draw, spec, sub_manifests=True, duplicates=True, ignores=True,
         nign = draw(st.integers(1, 2))
         cand = [p for p in vis if not treegen.is_hidden(p)
                 and not any(component_prefix(p, mp) for mp in mpaths)]
+        # hidden objects (skipped by every walk anyway) named by an IGNORE,
+        # like the usual "IGNORE .git"
+        hidden_cand = [p for p in vis
+                       if os.path.basename(p).startswith('.')
+                       and not treegen.is_hidden(os.path.dirname(p))
+                       and not any(component_prefix(p, mp) for mp in mpaths)]
         for _ in range(nign):
-            kind = draw(st.integers(0, 3))
-            if kind <= 1 and cand:
+            kind = draw(st.integers(0, 4))
+            if kind == 4 and hidden_cand:
+                ip = draw(st.sampled_from(sorted(hidden_cand)))
+                tags.append('ignore-hidden')
+            elif kind <= 1 and cand:
                 ip = draw(st.sampled_from(sorted(cand)))
                 tags.append('ignore-exact')
             elif kind == 2 and cand:
@@ -135,7 +144,8 @@ def layout(draw, spec, sub_manifests=True, duplicates=True, ignores=True,
                      base + '/zz']))
                 if ip.endswith('/') and draw(st.integers(0, 3)):
                     ip = ip.rstrip('/') + 'q'
-                if ip in vis or ip in mpaths:
+                if ip in vis or ip in mpaths or os.path.basename(
+                        ip.rstrip('/')) in ('', '.', '..'):
                     continue
                 tags.append('ignore-lookalike')
             else:
@@ -327,6 +337,8 @@ def render(lay, order_seed=None):
                 (str(order_seed) + en.to_line()).encode(
                     'utf8', 'surrogatepass')).digest())
         text = R.dump_entries(entries)
+        if m.get('eol'):
+            text = text.replace('\n', m['eol'])    # CRLF / CR line ends
         data = R.compress(text.encode('utf8', 'surrogatepass'), m['fmt'])
         rendered[i] = data
         out.append({'p': m['p'], 'fmt': m['fmt'], 'text': text})
